@@ -205,7 +205,9 @@ func (c *Conn) call(op, arg string) (string, error) {
 		w.log(c.pool, c, op, arg, "closed")
 		return kind, errClosed(op)
 	case "hang":
-		if op != "execute" {
+		// only a statement executed under the executor's max_sql_execute_time watchdog can be
+		// rescued from a hang; everywhere else the rig degrades the answer to an error
+		if op != "execute" || isSavepointSQL(arg) {
 			w.log(c.pool, c, op, arg, "err")
 			return "err", errBackend(op)
 		}
